@@ -105,22 +105,34 @@ def setOccurrence (o : OccSt) (a : Account) (pos : Nat) (kind : String) : Option
   let last := if positionValidatable a.type then o.last.set id kind else o.last
   some { o with last := last, lastIdx := o.lastIdx.set id (pos + 1) }
 
-def occFold (o : OccSt) (accs : List Account) (pos : Nat) (kind : String) : Option OccSt :=
-  accs.foldl (fun acc a => match acc with | none => none | some o => setOccurrence o a pos kind) (some o)
+/-- the source loop of one `ValidateSubDistributors` iteration -/
+def occSources (pos : Nat) : OccSt → List Account → Option OccSt
+  | o, [] => some o
+  | o, a :: rest =>
+    match setOccurrence o a pos "SOURCE" with
+    | none => none
+    | some o' => occSources pos o' rest
+
+/-- the share loop of one iteration (share names must be unique across the whole list) -/
+def occShares (pos : Nat) : OccSt → List Share → Option OccSt
+  | o, [] => some o
+  | o, sh :: rest =>
+    if o.shareNames.contains sh.name then none else
+    match setOccurrence { o with shareNames := sh.name :: o.shareNames } sh.dest pos "DESTINATION" with
+    | none => none
+    | some o' => occShares pos o' rest
 
 /-- one iteration of the loop in `ValidateSubDistributors` -/
-def occStep (o : OccSt) (i : Nat) (s : SubD) : Option OccSt := do
-  if o.subNames.contains s.name then none
-  let o := { o with subNames := s.name :: o.subNames }
-  let o ← occFold o (s.sources.filterMap id) i "SOURCE"
-  let o ← setOccurrence o s.primary i "DESTINATION"
-  if o.shareNames.contains (s.name ++ "_primary") then none
-  let o := { o with shareNames := (s.name ++ "_primary") :: o.shareNames }
-  s.shares.foldl (fun acc sh => match acc with
+def occStep (o : OccSt) (i : Nat) (s : SubD) : Option OccSt :=
+  if o.subNames.contains s.name then none else
+  match occSources i { o with subNames := s.name :: o.subNames } (s.sources.filterMap id) with
+  | none => none
+  | some o1 =>
+    match setOccurrence o1 s.primary i "DESTINATION" with
     | none => none
-    | some o =>
-      if o.shareNames.contains sh.name then none else
-      setOccurrence { o with shareNames := sh.name :: o.shareNames } sh.dest i "DESTINATION") (some o)
+    | some o2 =>
+      if o2.shareNames.contains (s.name ++ "_primary") then none else
+      occShares i { o2 with shareNames := (s.name ++ "_primary") :: o2.shareNames } s.shares
 
 def occLoop : OccSt → Nat → List SubD → Option OccSt
   | o, _, [] => some o
